@@ -61,7 +61,9 @@ if os.path.exists(mp):
             meta["checks"].setdefault(c + "@" + v.get("tier", "?"), v)
     if not meta["needs_to_manifest"]:
         meta["needs_to_manifest"] = old.get("needs_to_manifest", "")
-    meta["caught_by"] = sorted(set(meta["caught_by"]) | set(x for x in old.get("caught_by", [])))
+    meta["caught_by_earlier_runs"] = sorted(set(old.get("caught_by", [])) | set(old.get("caught_by_earlier_runs", [])))
+    for k_, v_ in old.items():  # notes added by hand (history, wave, ...) stay
+        meta.setdefault(k_, v_)
 json.dump(meta, open(mp, "w"), indent=1)
 print("%s confirmed=%s tests=%r demo(with)=%s demo(without)=%s caught_by=%s" % (a.seed_id, meta.get("confirmed"), meta.get("tests_with_change"), meta.get("demo_exit_with_change"), meta.get("demo_exit_without_change"), meta.get("caught_by")))
 for c, v in meta["checks"].items():
